@@ -277,6 +277,30 @@ Definition conv_rne (prec emin emax : Z) (n : num) : fl :=
 Definition c64_rne := conv_rne 53 (-1074) 1024.
 Definition c32_rne := conv_rne 24 (-149) 128.
 
+(* ---------- a key computed by an expression: ORDER BY (?x * 1) ----------
+   Multiply: as_number()? * as_number()? gives EvalResult::Value(Number n) with the same value
+   and variant (BigInt stays BigInt); anything that is not a number is an evaluation error, i.e.
+   an unbound key.  as_term() of the result is value_ref_to_arcterm: only the lexical form of
+   NaN ("NaN") can matter for the order (NaNs fall back to Term::cmp), the others are left empty. *)
+Definition xsd_ns : str :=
+  [104;116;116;112;58;47;47;119;119;119;46;119;51;46;111;114;103;47;50;48;48;49;47;88;77;76;83;99;104;101;109;97;35].
+Definition value_term (n : num) : term :=
+  LitDt (match n with Float FNaN | Double FNaN => [78;97;78] | _ => [] end)
+        (xsd_ns ++ match n with
+                   | NativeInt _ | BigInt _ => [105;110;116;101;103;101;114]
+                   | Decimal _ _ => [100;101;99;105;109;97;108]
+                   | Float _ => [102;108;111;97;116]
+                   | Double _ => [100;111;117;98;108;101]
+                   end).
+Definition times_one (k : option item) : option item :=
+  match k with
+  | Some a => match val a with
+              | Some (VNum n) => Some (mkItem (value_term n) (Some (VNum n)))
+              | _ => None
+              end
+  | None => None
+  end.
+
 (* ---------- harness-facing checkers ---------- *)
 Definition cmp_code (c : comparison) : N := match c with Lt => 0 | Eq => 1 | Gt => 2 end.
 (* the comparator observed on a pair of keys (by sorting the two-element multiset both ways) *)
@@ -294,3 +318,6 @@ Definition rows_ok (descs : list bool) (rows : list row) (out : list N) : bool :
   && forallb (fun i => N.ltb i n && N.eqb (count_N i out) 1) out
   && all_pairs_le (leb_of (cmp_bindings_with order_by descs))
        (map (fun i => nth (N.to_nat i) rows []) out).
+(* the same for ORDER BY (?x0 * 1), ... *)
+Definition expr_rows_ok (descs : list bool) (rows : list row) (out : list N) : bool :=
+  rows_ok descs (map (map times_one) rows) out.
